@@ -25,6 +25,7 @@ enum InnerOut {
     Taken(Obj),
     Status(deadpool::Status),
     Resized,
+    Closed,
 }
 
 impl<'a> Interp<'a> {
@@ -169,6 +170,19 @@ impl<'a> Interp<'a> {
                 let p2 = pool.clone();
                 Box::new(move || InnerOut::Status(p2.status()))
             }
+            Inner::Close => {
+                op_b = self.new_op(OpKind::Close);
+                if !self.close_started {
+                    self.c06_close_step = Some(self.step);
+                }
+                self.close_started = true;
+                self.events_for_rest += 1;
+                let p2 = pool.clone();
+                Box::new(move || {
+                    p2.close();
+                    InnerOut::Closed
+                })
+            }
             Inner::Resize { n } => {
                 op_b = self.new_op(OpKind::Resize);
                 self.resize_started = true;
@@ -255,6 +269,7 @@ impl<'a> Interp<'a> {
                 }
             }
             Ok(InnerOut::Resized) => self.resize_done(resize_n.unwrap(), None),
+            Ok(InnerOut::Closed) => self.close_finished(),
         }
     }
 
